@@ -2851,6 +2851,15 @@ class PlateSlicer(Slicer):
         else:
             different = False
             to.plate = frm.plate = deepcopy(to.plate)
+            # both regions are written back into the same plate: an overlap would lose one of the updates
+            addressed = []
+            for region in (frm, to):
+                mask = numpy.zeros(region.plate.wells.shape, dtype=bool)
+                for index in region.slices if isinstance(region.slices, list) else [region.slices]:
+                    mask[index] = True
+                addressed.append(mask)
+            if (addressed[0] & addressed[1]).any():
+                raise ValueError("Source and destination regions on the same plate must not overlap.")
 
         if frm.size == 1:
             # Source from the single element in frm
